@@ -41,6 +41,11 @@ H = Harness("C04", ["OQ.Base.Ring", "OQ.Base.Mat", "OQ.Base.CaseEq", "OQ.Circ.Li
             "amplitude, all 2^n outcome-probability keys and exact-distribution keys, sampled tuples, count strings, the "
             "distribution computed from the measurements, exact and measured expectation values of operators with terms on "
             "the first and the last qubit; on narrow registers the same tuple path is compared with C01's matrix mirror), "
+            "history (ONE Wavefunction object: all views, then accepted item assignments that keep the norm - swap two "
+            "amplitudes by index list, move to another basis state by slice assignment, multiply one amplitude by a power of "
+            "i - and all views again after each: get_outcome_probs, sample_from_wavefunction in both regimes with count "
+            "strings / distribution / measured values, exact distribution, exact expectation values, each compared with the "
+            "model on the amplitudes the object holds at that step; four fixed cases in every tier plus random ones), "
             "measure (random asymmetric tuples of width 1-6, and measure-wide: width 9-20 with outcomes differing only in "
             "the first or only in the last qubits: get_counts, get_distribution and get_expectation_values), zero-width "
             "(known finding F6), invalid (non-positive sample count, operator index outside the register: must raise exactly "
@@ -321,6 +326,15 @@ def gen(rng, tier):
     widths = {"quick": [9, 9, 9, 9, 10, 10, 11], "search": [9] * 8}.get(tier)
     if widths is None:
         widths = [rng.choice([9] * 7 + [10] * 3 + [11] * 2) for _ in range(70)] + [12]
+    # one Wavefunction object: views, accepted item assignments, views again (fixed cases in every tier)
+    yield dict(kind="history", n=3, gates=[["X", [0]]], steps=[["move", 1]], op=[[1, 0, [0]], [1, 0, [2]], [3, 1, [0, 2]]],
+               seed=11, ns_few=4, ns_many=12)
+    yield dict(kind="history", n=2, gates=[["SX", [0]]], steps=[["swap", 0, 1]], op=[[1, 0, [1]], [-5, 2, [0, 1]]],
+               seed=12, ns_few=4, ns_many=16)
+    yield dict(kind="history", n=3, gates=[["X", [2]], ["S", [2]]], steps=[["phase", 1, 3], ["swap", 1, 6], ["move", 3]],
+               op=[[7, 1, [1]], [1, 0, [0, 1, 2]]], seed=13, ns_few=8, ns_many=9)
+    yield dict(kind="history", n=4, gates=[["X", [3]], ["SX", [0]]], steps=[["swap", 1, 2], ["swap", 9, 15]],
+               op=[[1, 0, [3]], [1, 0, [0]], [1, 1, [1, 2]]], seed=14, ns_few=16, ns_many=32)
     for n in widths:
         yield dict(kind="wide", n=n, gates=rand_wide(rng, n), op=rand_op_ends(rng, n), seed=rng.randint(0, 2 ** 31 - 1),
                    ns_few=rng.randint(2, 9), ns_many=2 ** n + rng.randint(1, 9))
@@ -359,8 +373,22 @@ def gen(rng, tier):
                 op = rand_op_ends(rng, w)
             shots = [rng.choice(pool) for _ in range(2 ** rng.randint(0, 5))]
             yield dict(kind="measure", w=w, shots=shots, op=op)
-        elif r < 0.93:
+        elif r < 0.915:
             yield dict(kind="zero-width", n_samples=rng.randint(1, 6), seed=seed)
+        elif r < 0.93:
+            n = rng.choice([1, 2, 2, 3, 3, 4])
+            flavour = rng.choice(["basis", "superpos"])
+            steps = []
+            for _ in range(rng.randint(1, 3)):
+                k = rng.choice(["swap", "swap", "move", "phase"])
+                if k == "swap":
+                    steps.append(["swap"] + rng.sample(range(2 ** n), 2))
+                elif k == "move":
+                    steps.append(["move", rng.randrange(2 ** n)])
+                else:
+                    steps.append(["phase", rng.randrange(2 ** n), rng.randint(1, 3)])
+            yield dict(kind="history", n=n, gates=rand_circuit(rng, n, flavour), steps=steps, op=rand_op(rng, n), seed=seed,
+                       ns_few=2 ** rng.randint(0, n), ns_many=2 ** rng.randint(n + 1, 7))
         elif r < 0.965:
             n = rng.randint(1, 4)
             yield dict(kind="invalid-samples", n=n, gates=rand_circuit(rng, n, "basis"), n_samples=rng.choice([0, -1, -7]), seed=seed)
@@ -665,10 +693,117 @@ def run_wide(inp):
     chk = f"(let st := basis_path {cnat(n)} {tl} in " + " && ".join(parts) + ")"
     return dict(chk=chk, oracle_ok=not fails, oracle_msg="; ".join(fails[:3]), kind=f"wide-w{n}", nontrivial=asym(n, gates, op))
 
+def wf_views(wf, n, op, op_obj, ns_few, ns_many, seed, psi_o, fails, label):
+    """all views of ONE Wavefunction object as it is now: oracle checks against psi_o, Coq parts against the amplitudes
+    the object holds now"""
+    amps = np.asarray(wf.amplitudes).reshape(-1)
+    if len(amps) != 2 ** n or np.max(np.abs(amps - psi_o)) > TOL:
+        fails.append(f"{label}: amplitudes {list(amps)} expected {list(psi_o)}")
+    probs_o = np.abs(psi_o) ** 2
+    nz = [i for i in range(2 ** n) if probs_o[i] > 1e-12]
+    basis_tuple = tuple(qbit(n, nz[0], q) for q in range(n)) if len(nz) == 1 else None
+    aligned = all(z.real == 0 or z.imag == 0 for z in amps)
+    exact = cbool(aligned)
+    parts = []
+    # sampling first in odd steps, the probability table first in even ones: both orders of first use occur
+    def table():
+        oprobs = wf.get_outcome_probs()
+        okeys = [str(k) for k in oprobs.keys()]
+        ovals = [float(v) for v in oprobs.values()]
+        if len(okeys) != 2 ** n:
+            fails.append(f"{label}: get_outcome_probs has {len(okeys)} entries")
+        for key, p in zip(okeys, ovals):
+            t = bitstring_to_tuple(key)
+            if len(t) != n or abs(probs_o[tuple_index(t)] - p) > TOL:
+                fails.append(f"{label}: get_outcome_probs[{key!r}] = {p}: as a tuple {t} the probability is "
+                             f"{probs_o[tuple_index(t)] if len(t) == n else '?'}")
+                break
+        parts.append(f"outcome_probs_eqb {exact} {cnat(n)} psi {clist(okeys, cstring)} {clist(ovals, cq)}")
+    def sampling():
+        for regime, ns in (("few", ns_few), ("many", ns_many)):
+            stm, m = outcome(lambda: Measurements(sample_from_wavefunction(wf, ns, seed)), timeout=60)
+            stm, shots, cnt, vals, md = read_measurements(m, op_obj) if stm == "ok" else (stm, m, None, None, None)
+            if stm != "ok":
+                fails.append(f"{label} {regime}: sampling raised {shots}")
+                parts.append("false")
+                continue
+            if len(shots) != ns:
+                fails.append(f"{label} {regime}: asked for {ns} samples, got {len(shots)}")
+            check_samples(n, shots, cnt, vals, op, psi_o, fails, f"{label} {regime} ({ns} samples)", basis_tuple, mdist=md)
+            cv = copt(vals, lambda vs: clist(vs, cq))
+            if basis_tuple is not None:
+                parts.append(f"measure_basis_eqb {cnat(n)} psi {cz(ns)} (Some {clist(shots, cbits)}) {ccounts(cnt)}")
+                parts.append(f"measured_eqb {clist(shots, cbits)} {cop(op)} {ccounts(cnt)} {cv}")
+                parts.append(f"measured_dist_eqb {clist(shots, cbits)} {cdist(md)}")
+            else:
+                parts.append(f"support_eqb {cnat(n)} psi {ccounts(cnt)} {cz(ns)}")
+                parts.append(f"values_from_counts_eqb {ccounts(cnt)} {cop(op)} {cv}")
+    for f in ((table, sampling) if label.endswith(("0", "2")) else (sampling, table)):
+        f()
+    std, dist = outcome(lambda: create_bitstring_distribution_from_probability_distribution(wf.get_probabilities()).distribution_dict, timeout=60)
+    if std != "ok":
+        fails.append(f"{label}: exact distribution raised {dist}")
+        parts.append("false")
+    else:
+        dkeys = [tuple(int(b) for b in k) for k in dist.keys()]
+        dvals = [float(v) for v in dist.values()]
+        for t, p in zip(dkeys, dvals):
+            if len(t) != n or abs(probs_o[tuple_index(t)] - p) > TOL:
+                fails.append(f"{label}: exact distribution[{t}] = {p}, expected {probs_o[tuple_index(t)] if len(t) == n else '?'}")
+                break
+        parts.append(f"exact_dist_eqb {exact} {cnat(n)} psi {clist(dkeys, cbits)} {clist(dvals, cq)}")
+    per_term = []
+    for k, term in enumerate(op_obj.terms):
+        stt, v = outcome(get_expectation_value, term, wf, timeout=60)
+        q, real = real_q(v) if stt == "ok" else (None, False)
+        per_term.append(q)
+        want = sum(probs_o[i] * eig([op[k]], lambda qb: qbit(n, i, qb))[0] for i in range(2 ** n))
+        if stt != "ok" or not real or abs(float(q) - want) > TOL:
+            fails.append(f"{label}: exact <term {k} on qubits {op[k][2]}> = {v}, average of eigenvalues {want}")
+    stt, tot = outcome(lambda: get_expectation_value(op_obj, wf), timeout=60)
+    total = real_q(tot)[0] if stt == "ok" else None
+    parts.append(f"exact_values_eqb {cnat(n)} psi {cop(op)} {clist(per_term, lambda v: copt(v, cq))} {copt(total, cq)}")
+    return f"(let psi := {clist([ex(z) for z in amps], cg)} in " + " && ".join(parts) + ")"
+
+def run_history(inp):
+    """one Wavefunction object: all views, then accepted item assignments (each keeps the norm), all views again"""
+    n, gates, op, kind = inp["n"], inp["gates"], inp["op"], inp["kind"]
+    sim = SymbolicSimulator(seed=inp["seed"])
+    op_obj = pauli(op)
+    fails = []
+    psi_o = oracle_state(n, gates)
+    st, wf = outcome(sim.get_wavefunction, build(inp), timeout=60)
+    if st != "ok":
+        return dict(chk="false", oracle_ok=False, oracle_msg=f"get_wavefunction raised {wf}", kind=kind)
+    chks = [wf_views(wf, n, op, op_obj, inp["ns_few"], inp["ns_many"], inp["seed"], psi_o, fails, "step 0")]
+    for k, step in enumerate(inp["steps"], 1):
+        psi_o = psi_o.copy()
+        if step[0] == "swap":
+            i, j = step[1], step[2]
+            sta, _ = outcome(wf.__setitem__, [i, j], [complex(wf[j]), complex(wf[i])])
+            psi_o[[i, j]] = psi_o[[j, i]]
+        elif step[0] == "move":
+            new = np.zeros(2 ** n, dtype=complex)
+            new[step[1]] = 1
+            sta, _ = outcome(wf.__setitem__, slice(None), new)
+            psi_o = new.copy()
+        else:
+            i = step[1]
+            sta, _ = outcome(wf.__setitem__, i, complex(wf[i]) * 1j ** step[2])
+            psi_o[i] = psi_o[i] * 1j ** step[2]
+        if sta != "ok":
+            fails.append(f"step {k}: assignment {step} (norm kept) raised {_}")
+            break
+        chks.append(wf_views(wf, n, op, op_obj, inp["ns_few"], inp["ns_many"], inp["seed"] + k, psi_o, fails, f"step {k}"))
+    return dict(chk=" && ".join(chks), oracle_ok=not fails, oracle_msg="; ".join(fails[:3]), kind=f"history-w{n}",
+                nontrivial=n >= 2 and len(chks) >= 2)
+
 def run_case(inp):
     kind = inp["kind"]
     if kind == "wide":
         return run_wide(inp)
+    if kind == "history":
+        return run_history(inp)
     if kind in ("basis", "superpos", "superpos-h"):
         return run_state(inp)
     if kind == "measure":
